@@ -70,6 +70,8 @@ ALWAYS_EXPAND = frozenset((
     "gunicorn.http.body.ChunkedReader.get_data",
     "gunicorn.http.message.Request.get_data",
     "gunicorn.util._called_with_wrong_args",
+    "gunicorn.arbiter.Arbiter.init_signals",
+    "gunicorn.workers.sync.SyncWorker.accept",
 ))
 
 _baseline = None
